@@ -39,7 +39,7 @@ int KillMemoryGrowth<Base>::init(
       "growing_size_percentile",
       growing_size_percentile_,
       [&](const std::string& s) {
-        int v = std::stoi(s);
+        int v = PluginArgParser::parseValue<int>(s);
         if (v < 0 || v >= 100) {
           throw std::invalid_argument(
               "growing_size_percentile must be in range [0, 100)");
